@@ -121,8 +121,8 @@ package crlstore
 // through the repository functions (DESIGN 8.4).
 // The factory establishes the hypotheses of replaced_on_disk for the stores it hands out.
 //@ func LevelDbStoreFactory.CreateStore
-//@   props C08 C11 C12 C18 C20
-//@   ensures[C08,C11,C12,C18,C20] handed_out_store_is_consistent_with_its_directory: err == nil ==> typeis(ret, *LevelDbStore) && fsConsistent(as(ret, *LevelDbStore)) && (!temporary ==> as(ret, *LevelDbStore).LevelDBPath == pathJoin2(F.BasePath, identifier)) && (temporary ==> tempName(baseName(as(ret, *LevelDbStore).LevelDBPath)))
+//@   props C08 C11 C12 C17 C18 C20
+//@   ensures[C08,C11,C12,C17,C18,C20] handed_out_store_is_consistent_with_its_directory: err == nil ==> typeis(ret, *LevelDbStore) && fsConsistent(as(ret, *LevelDbStore)) && (!temporary ==> as(ret, *LevelDbStore).LevelDBPath == pathJoin2(F.BasePath, identifier)) && (temporary ==> tempName(baseName(as(ret, *LevelDbStore).LevelDBPath)))
 
 //@ func LevelDbStore.Update
 //@   props C08 C11 C12 C18
